@@ -116,6 +116,12 @@ CHECKS = {
         text="Token soups, token-level mutations of valid queries, functions with ill-typed / missing / huge arguments and 60 directed malformed queries (one-argument and fully split) are executed against a non-empty tree; every run is judged for termination, status and diagnostics.",
         note="Trusted: RLIMIT_CPU 5 s as the busy-loop decider; soups are filtered to keep the search inside the scratch tree.",
         ref="DESIGN.md section 3 / C10"),
+    "C19": dict(
+        level="fault_enumeration",
+        technique="runtime monitoring: zipfile.infolist() reference + metamorphic comparison with the query without `archives`; complete enumeration of truncation points and central-directory byte flips; strace read-fault injection; LD_PRELOAD controlled clock; chk hook events",
+        text="Member rows are compared with the central directory of archives the harness wrote (exactly once, size/is_dir/mode/modified, WHERE, ORDER BY), ordinary rows with the same query without `archives`; every truncation point and 3 bit patterns on every central-directory byte of a small archive are searched next to an intact one; read/lseek/openat errors are injected on one archive; searches run under a pinned clock at month ends and leap days.",
+        note="Trusted: Python zipfile as the reference writer/reader; strace -e inject; the fake-clock shim (fsv/native/fakeclock.c).",
+        ref="DESIGN.md section 3 / C19"),
 }
 
 NOT_APPLICABLE = {}
